@@ -193,6 +193,27 @@ fn build_any(rng: &mut Rng, r: &Rose) -> (Tree, String) {
     }
 }
 
+/// a spelling that a sloppy comparison would identify with `n`: quoting, letter case, a suffix, leading or trailing white space
+/// (only reachable through the API: the Newick parser drops unquoted blanks), invisible characters, a combining mark —
+/// distinct labels are distinct taxa, however similar
+pub fn look_alike_of(rng: &mut Rng, n: &str) -> String {
+    match rng.below(14) {
+        0 | 1 => format!("'{n}'"),
+        2 => format!("\"{n}\""),
+        3 => n.to_lowercase(),
+        4 => format!("{n}_"),
+        5 => format!("{n}.0"),
+        6 => format!("{n} "),
+        7 => format!("{n}\t"),
+        8 => format!(" {n}"),
+        9 => format!("{n}\n"),
+        10 => format!("{n}\u{a0}"),
+        11 => format!("{n}\u{200b}"),
+        12 => n.to_uppercase(),
+        _ => format!("{n}\u{301}"),
+    }
+}
+
 fn arena_of(t: &Tree) -> String {
     enc_arena_scaled(&slots_of(t)).unwrap_or_else(|_| "_".into())
 }
@@ -387,6 +408,18 @@ pub fn run_c05(thorough: bool, seed: u64, driver: &str, rep: &mut Report) {
                     collide_internal_names(&mut rng, &mut t, 40);
                     rep.count("internal_labels_spelled_like_leaves");
                 }
+                if i % 5 == 1 {
+                    let ls: Vec<String> = rose_leafset(&t).into_iter().collect();
+                    if ls.len() >= 3 {
+                        let n1 = rng.pick(&ls).clone();
+                        let n2 = ls.iter().find(|x| **x != n1).unwrap().clone();
+                        let variant = look_alike_of(&mut rng, &n1);
+                        if !ls.contains(&variant) {
+                            t = rename(&t, &|x: &str| -> String { if x == n2 { variant.clone() } else { x.to_string() } });
+                            rep.count("look_alike_leaf_labels");
+                        }
+                    }
+                }
                 c05_tree(&t, &mut rng, &mut q, rep, true);
             }
             q.flush(&d, rep, "c05.parts");
@@ -548,13 +581,16 @@ fn pair_requests(a: &Rose, b: &Rose, rng: &mut Rng, q: &mut Q, rep: &mut Report,
                 ga.reset_bipartition_cache();
                 gb.reset_bipartition_cache();
                 let reused = real_rf(&ga, &gb);
-                let fa = ga.to_newick().ok().and_then(|x| Tree::from_newick(&x).ok());
-                let fb = gb.to_newick().ok().and_then(|x| Tree::from_newick(&x).ok());
+                // the reference objects are rebuilt through the API from the trees as they are now (not through Newick text:
+                // labels with blanks in them are legal taxa but do not survive the text form)
+                let rebuilt = |t: &Tree| -> Option<Tree> { let sl = slots_of(t); rose_of(&sl, t.get_root().ok()?).map(|r| build_api(&r)) };
+                let fa = rebuilt(&ga);
+                let fb = rebuilt(&gb);
                 if let (Some(fa), Some(fb)) = (fa, fb) {
                     let fresh_rf = real_rf(&fa, &fb);
                     rep.count("rf_after_growth_and_reset");
                     if reused != fresh_rf {
-                        rep.oracle("rf-after-edit", "growth:differs-from-fresh-trees", &format!("{case}\n# distance_matrix + comparisons on both objects, add_child(NEWLEAF) below node {pa} of the first and node {pb} of the second, reset_bipartition_cache, robinson_foulds"), &format!("reused objects: {reused}; freshly parsed trees: {fresh_rf}"));
+                        rep.oracle("rf-after-edit", "growth:differs-from-fresh-trees", &format!("{case}\n# distance_matrix + comparisons on both objects, add_child(NEWLEAF) below node {pa} of the first and node {pb} of the second, reset_bipartition_cache, robinson_foulds"), &format!("reused objects: {reused}; freshly built trees: {fresh_rf}"));
                     }
                 }
             }
@@ -674,13 +710,18 @@ fn pair_requests(a: &Rose, b: &Rose, rng: &mut Rng, q: &mut Q, rep: &mut Report,
 }
 
 fn relabel_lengths(rng: &mut Rng, t: &mut Rose, mode: LenMode) {
+    let pattern = rng.below(8);
     t.for_each_mut(
         &mut |r, root, _| {
             r.len = None;
             let want = match mode {
                 LenMode::All => true,
                 LenMode::None => false,
-                LenMode::Mixed => rng.chance(5, 6),
+                LenMode::Mixed => match pattern {
+                    0 => !r.kids.is_empty(),
+                    1 => r.kids.is_empty(),
+                    _ => rng.chance(5, 6),
+                },
             };
             if !root && want {
                 r.len = Some(gen_len(rng, LenKind::Dyadic));
@@ -820,7 +861,7 @@ pub fn run_pairs(prop: &str, thorough: bool, seed: u64, driver: &str, rep: &mut 
                     if ls.len() >= 3 {
                         let n1 = rng.pick(&ls).clone();
                         let n2 = ls.iter().find(|x| **x != n1).unwrap().clone();
-                        let variant = match rng.below(6) { 0 | 1 => format!("'{n1}'"), 2 => format!("\"{n1}\""), 3 => n1.to_lowercase(), 4 => format!("{n1}_"), _ => format!("{n1}.0") };
+                        let variant = look_alike_of(&mut rng, &n1);
                         if !ls.contains(&variant) && !rose_leafset(&b).contains(&variant) {
                             let map = |x: &str| -> String { if x == n2 { variant.clone() } else { x.to_string() } };
                             a = rename(&a, &map);
